@@ -14,7 +14,7 @@ import hashlib
 from props.common import *
 
 ID = 'C04'
-LEAN_PROOFS = ['Proofs.C04']
+LEAN_PROOFS = ['Proofs.C04', 'Proofs.C04.SpecKat']
 GEN_ITEMS = ['KeccakG']
 RULE = ('op lines = (op, width b, rate r, bit-order mode, message, bit length L, output length d); rates incl. r<8 and r not a '
         'multiple of 8, L over {0,1,r-2,r-1,r,r+1,2r-2,2r-1,2r,2r+1,..} x L mod 8, d over {1,r,r+1,3r}; distinct lines; '
@@ -303,8 +303,8 @@ def sponge_cases(tier, rng):
                 M = rbytes(rng, (r + 9) // 8)
                 yield sponge_line(b, r, 'N', M, None, d), 'sponge:b%d:bitlen=None' % b
             if tier != 'quick':
-                for _ in range(4):
-                    L = rng.randrange(0, 4 * r + 8)
+                for _ in range(8):
+                    L = rng.randrange(0, 6 * r + 8)
                     yield sponge_line(b, r, rng.choice('NL'), msg_for(rng, L, rng.randrange(3)), L, rng.choice(ds + [rng.randrange(1, 4 * r)])), 'sponge:random'
     # b=1600 instances that are SHA-3 / SHAKE in disguise (hashlib secondary oracle inside check_impl)
     for n, r in SHA3_RATE.items():
